@@ -27,4 +27,9 @@ MUTANTS = [
     m("c19-twin-hash-order", None, "        return hash((self.factor, self.sign))", "        return hash((self.sign, self.factor))", twin=True),
     m("c19-lu-scaled-in-place-unpacked", "R1", "        old_lu, piv = self._lu_and_piv\n        # Multiply upper-triangle by scalar\n        new_lu = old_lu + (scalar - 1) * np.triu(old_lu)\n", "        old_lu, piv = self._lu_and_piv\n        new_lu = old_lu\n        new_lu[np.triu_indices_from(new_lu)] *= scalar\n", key="inplace:self._lu_and_piv"),
     m("c19-twin-lu-copy-then-inplace", None, "        old_lu, piv = self._lu_and_piv\n        # Multiply upper-triangle by scalar\n        new_lu = old_lu + (scalar - 1) * np.triu(old_lu)\n", "        old_lu, piv = self._lu_and_piv\n        new_lu = old_lu + 0.0\n        new_lu[np.triu_indices_from(new_lu)] *= scalar\n", twin=True),
+    {"id": "c19-undo-F19", "prop": "C19", "rule": "R5", "key": "hash_array", "edits": [{"file": "utils.py", "old": "    return hash(canonical.tobytes())", "new": "    return hash(array.tobytes())"}]},
+    {"id": "c19-hash-keeps-signed-zero", "prop": "C19", "rule": "R5", "key": "missing:zero", "edits": [{"file": "utils.py", "old": "np.result_type(array, np.float64)) + 0.0", "new": "np.result_type(array, np.float64))"}]},
+    {"id": "c19-hash-keeps-dtype", "prop": "C19", "rule": "R5", "key": "missing:dtype", "edits": [{"file": "utils.py", "old": "    canonical = np.ascontiguousarray(array, np.result_type(array, np.float64)) + 0.0", "new": "    canonical = np.ascontiguousarray(array) + 0.0"}]},
+    {"id": "c19-hash-mixes-strides", "prop": "C19", "rule": "R5", "key": "raw:strides", "edits": [{"file": "utils.py", "old": "    return hash(canonical.tobytes())", "new": "    return hash((canonical.tobytes(), array.strides))"}]},
+    {"id": "c19-twin-hash-astype", "prop": "C19", "rule": None, "twin": True, "edits": [{"file": "utils.py", "old": "    canonical = np.ascontiguousarray(array, np.result_type(array, np.float64)) + 0.0", "new": "    canonical = np.ascontiguousarray(array, dtype=np.result_type(array, np.float64))\n    canonical = canonical + 0.0"}]},
 ]
